@@ -78,9 +78,9 @@ fn build(bits: &[bool], ctor: u32) -> BitVec<u8> {
     }
 }
 
-fn run_one(log: &mut Log, tag: &str, bits: &[bool], k: usize, ctor: u32) {
+fn run_one(log: &mut Log, tag: &str, bits: &[bool], k: usize, ctor: u32, via: u32) {
     let n = bits.len();
-    if !log.begin(tag, json!({"n": n, "k": k, "ctor": ctor, "bits": bits_json(bits)})) {
+    if !log.begin(tag, json!({"n": n, "k": k, "ctor": ctor, "via": via, "bits": bits_json(bits)})) {
         return;
     }
     // driver-side coverage counters (which boundary regions did the inputs reach)
@@ -118,6 +118,22 @@ fn run_one(log: &mut Log, tag: &str, bits: &[bool], k: usize, ctor: u32) {
         }
         sb += 1;
     }
+    // two or more consecutive complete superblocks without a one / without a zero (three entries tie)
+    let mut run1 = 0;
+    let mut run0 = 0;
+    let mut sbi = 0;
+    while (sbi + 1) * s <= n {
+        let seg = &bits[sbi * s..(sbi + 1) * s];
+        run1 = if seg.iter().all(|&b| !b) { run1 + 1 } else { 0 };
+        run0 = if seg.iter().all(|&b| b) { run0 + 1 } else { 0 };
+        if run1 >= 2 && (sbi + 1) * s < n {
+            log.oblige("two_consecutive_superblocks_without_ones");
+        }
+        if run0 >= 2 && (sbi + 1) * s < n {
+            log.oblige("two_consecutive_superblocks_without_zeros");
+        }
+        sbi += 1;
+    }
     if some1 {
         log.oblige("equal_rank_run_ones");
     }
@@ -146,6 +162,39 @@ fn run_one(log: &mut Log, tag: &str, bits: &[bool], k: usize, ctor: u32) {
     let rs = match rs {
         Some(r) => r,
         None => return,
+    };
+    // the queries go to the object itself, to a clone, or to a serde round trip through JSON (a
+    // self-describing format) -- all three must answer alike
+    let rs = match via {
+        1 => {
+            let mut c: Option<RankSelect> = None;
+            log.call("clone", json!({}), || {
+                c = Some(rs.clone());
+                json!({})
+            });
+            log.oblige("rs_clone_queried");
+            match c {
+                Some(c) => c,
+                None => return,
+            }
+        }
+        2 => {
+            let mut c: Option<RankSelect> = None;
+            log.call("serde", json!({}), || {
+                let text = serde_json::to_string(&rs).expect("serialize");
+                c = Some(serde_json::from_str(&text).expect("deserialize"));
+                json!({"len": text.len()})
+            });
+            log.oblige("rs_serde_roundtrip_queried");
+            if some1 || some0 {
+                log.oblige("rs_serde_roundtrip_with_equal_rank_run");
+            }
+            match c {
+                Some(c) => c,
+                None => return,
+            }
+        }
+        _ => rs,
     };
     let n64 = n as u64;
     log.call("get", json!({}), || {
@@ -193,6 +242,22 @@ fn fill(rng: &mut Rng, n: usize, s: usize, which: u64) -> Vec<bool> {
         4 => b.iter_mut().for_each(|x| *x = rng.coin()),
         5 => b.iter_mut().for_each(|x| *x = rng.chance(1, 16)),
         6 => b.iter_mut().for_each(|x| *x = rng.chance(15, 16)),
+        8 => {
+            // a few ones / zeros, then two to four whole superblocks of equal bits, then a few again:
+            // several superblock entries start with the same rank
+            let val = rng.coin();
+            b.iter_mut().for_each(|x| *x = if rng.chance(1, 8) { !val } else { val });
+            let nsb = n / s;
+            if nsb >= 3 {
+                let len = (2 + rng.below(3) as usize).min(nsb - 1);
+                let from = 1 + rng.below((nsb - len) as u64) as usize;
+                for j in from * s..(from + len) * s {
+                    b[j] = val;
+                }
+                // make sure something of the other kind precedes the run
+                b[rng.below((from * s) as u64) as usize] = !val;
+            }
+        }
         _ => {
             // whole superblocks / bytes of equal bits: runs of equal superblock ranks, all-0 / all-1 blocks
             let unit = if rng.coin() { s } else { 8 };
@@ -217,7 +282,7 @@ pub fn drive(log: &mut Log) {
     let seed = log.opts.seed;
     let thorough = log.opts.thorough();
     let mut case: u64 = 0;
-    const NFILL: u64 = 8;
+    const NFILL: u64 = 9;
     // (a) every n in 1..=130 for k = 1 (and k = 2 in the thorough tier)
     let ks_a: &[usize] = if thorough { &[1, 2] } else { &[1] };
     for &k in ks_a {
@@ -231,7 +296,7 @@ pub fn drive(log: &mut Log) {
                 let mut rng = Rng::new(seed, 17, case);
                 let which = if thorough { rep } else { (n as u64 + rep * 3 + seed) % NFILL };
                 let bits = fill(&mut rng, n, 32 * k, which);
-                run_one(log, "sm", &bits, k, (case % 5) as u32);
+                run_one(log, "sm", &bits, k, (case % 5) as u32, (case / 5 % 3) as u32);
             }
         }
     }
@@ -253,24 +318,24 @@ pub fn drive(log: &mut Log) {
                     let mut rng = Rng::new(seed, 18, case);
                     let which = if thorough { rep } else { ((d + 9) as u64 + rep * 3 + seed + mult as u64) % NFILL };
                     let bits = fill(&mut rng, n, 32 * k, which);
-                    run_one(log, "bd", &bits, k, (case % 5) as u32);
+                    run_one(log, "bd", &bits, k, (case % 5) as u32, (case / 5 % 3) as u32);
                 }
             }
         }
     }
     // (c) k larger than the vector, and a few long random vectors
-    for &(n, k) in &[(1usize, 5usize), (9, 4), (40, 2), (64, 3), (200, 7), (1000, 1), (1500, 5)] {
-        for rep in 0..2u64 {
+    for &(n, k) in &[(1usize, 5usize), (9, 4), (40, 2), (64, 3), (200, 7), (1000, 1), (1500, 5), (330, 1), (645, 2), (384, 1)] {
+        for rep in 0..4u64 {
             case += 1;
             if !log.mine(case) {
                 continue;
             }
             let mut rng = Rng::new(seed, 19, case);
-            let bits = fill(&mut rng, n, 32 * k, if rep == 0 { 4 } else { 7 });
+            let bits = fill(&mut rng, n, 32 * k, [4, 7, 8, 8][rep as usize]);
             if n < 32 * k {
                 log.oblige("k_larger_than_vector");
             }
-            run_one(log, "lg", &bits, k, (case % 5) as u32);
+            run_one(log, "lg", &bits, k, (case % 5) as u32, (case / 5 % 3) as u32);
         }
     }
 }
